@@ -27,7 +27,7 @@ def is_trivial(line, mo):
 
 
 def flat_def(rng):
-    d = defgen.Defn(rng, apid_name=rng.choice(["PKT_APID", "APID"]), max_depth=1, fanout=3)
+    d = defgen.Defn(rng, apid_name=rng.choice(["PKT_APID", "APID"]), max_depth=1, fanout=3, wide_ctx=True)
     return d
 
 
@@ -178,6 +178,17 @@ def _stripped(c):
     return c
 
 
+def _rounded(a, b):
+    """`b` is the double nearest to the exact number `a` (both `f<num>/<den>` tokens), and differs from it."""
+    from fractions import Fraction
+    import re
+    ma, mb = re.fullmatch(r"f(-?\d+)/(\d+)", a), re.fullmatch(r"f(-?\d+)/(\d+)", b)
+    if not ma or not mb:
+        return False
+    fa, fb = Fraction(int(ma.group(1)), int(ma.group(2))), Fraction(int(mb.group(1)), int(mb.group(2)))
+    return fa != fb and fa.denominator == 1 and abs(fa) > 2 ** 53 and Fraction(float(fa)) == fb
+
+
 def explain(line, mo, io):
     """Names of the recorded findings that together account for *every* difference between the lossless answer and the
     observed dataset; None when some difference is not covered (then it is a new violation)."""
@@ -196,6 +207,8 @@ def explain(line, mo, io):
                 continue
             if mdt in ("bytes", "str") and _stripped(a) == b:
                 names.add("nul_stripping")
+            elif mdt == "infer" and _rounded(a, b):
+                names.add("mixed_column_rounding")
             elif rawmode and mdt == "str" and a.startswith("x") and b.startswith("s") and \
                     (a[1:] == b[1:] or _stripped(a)[1:] == b[1:]):
                 names.add("raw_string_as_str")
